@@ -200,7 +200,8 @@ func checkC06(p *Prog, res *Result, tier string) {
 		}
 		// .. and resume exactly after the cached events that were replayed (C05-R1)
 		for _, o := range p.subResult("C05", tier).Obls {
-			if o.Rule == "C05-R1" {
+			// (C05-R16: .. and that are found at their logical positions in the cache)
+			if o.Rule == "C05-R1" || o.Rule == "C05-R16" {
 				res.add("C06-R7", o.Rule+" "+o.Construct, o.Status, o.Pos, o.Detail)
 			}
 		}
